@@ -49,7 +49,7 @@ I64_MIN = -(2 ** 63)
 I64_MAX = 2 ** 63 - 1
 
 HEX8 = re.compile(r"^[0-9a-f]{8}$")
-SEP = re.compile(r"([/@:;,=])")
+SEP = re.compile(r"([/@:;,=~+])")
 
 def fields(tok):
     """split a token into (class, text) fields. classes: time, float, unit, cat"""
